@@ -504,20 +504,17 @@ mod k {
         std::mem::forget(r);
     }
 
-    /// VERIF: {"p":"C19","tier":"quick","fns":["config::str_duration"],"bounds":"every ASCII string of length 0,1,2,3,4 (all 128 values per octet)","oracle":"Ok(duration) or Err(InvalidConfig): never a panic (unwrap, arithmetic overflow)","stubs":["alloc::fmt::format -> empty string (message text only)"],"covers":1,"unwind":7}
+    /// VERIF: {"p":"C19","tier":"quick","fns":["config::str_duration"],"bounds":"every ASCII string of length 0,1,2,3,4 (all 128 values per octet; one instance per length, run one after the other)","oracle":"Ok(duration) or Err(InvalidConfig): never a panic (unwrap, arithmetic overflow)","stubs":["alloc::fmt::format -> empty string (message text only)"],"covers":1,"unwind":7}
     #[kani::proof]
     #[kani::unwind(7)]
     #[kani::stub(alloc::fmt::format, empty_format)]
     fn c19_str_duration_total_short() {
-        let n: u8 = kani::any();
-        kani::cover!(n == 0xA5, "length 4");
-        match n {
-            0 => duration_total::<0>(),
-            1 => duration_total::<1>(),
-            2 => duration_total::<2>(),
-            3 => duration_total::<3>(),
-            _ => duration_total::<4>(),
-        }
+        kani::cover!(kani::any::<u8>() == 0xA5, "reached");
+        duration_total::<0>();
+        duration_total::<1>();
+        duration_total::<2>();
+        duration_total::<3>();
+        duration_total::<4>();
     }
 
     // -> (value the reference assigns, or None when it refuses)
@@ -548,28 +545,37 @@ mod k {
         want
     }
 
-    /// VERIF: {"p":"C19","tier":"quick","fns":["config::str_duration"],"bounds":"every ASCII string of length 0..=6 in which each unit letter (s m h d w) that precedes the first foreign character has a digit between it and the previous unit letter","oracle":"value == sum of number x unit (+ trailing bare number as seconds), blanks and '_' ignored; a foreign character => Err(InvalidConfig); never a panic","stubs":["alloc::fmt::format -> empty string (message text only)"],"covers":3,"unwind":9}
+    /// VERIF: {"p":"C19","tier":"quick","fns":["config::str_duration"],"bounds":"every ASCII string of length 0,1,2,3,4 in which each unit letter (s m h d w) that precedes the first foreign character has a digit between it and the previous unit letter","oracle":"value == sum of number x unit (+ trailing bare number as seconds), blanks and '_' ignored; a foreign character => Err(InvalidConfig); never a panic","stubs":["alloc::fmt::format -> empty string (message text only)"],"covers":3,"unwind":7}
+    #[kani::proof]
+    #[kani::unwind(7)]
+    #[kani::stub(alloc::fmt::format, empty_format)]
+    fn c19_str_duration_value_wellformed_short() {
+        let _ = duration_value::<0>();
+        let _ = duration_value::<1>();
+        let w2 = duration_value::<2>();
+        let _ = duration_value::<3>();
+        let w4 = duration_value::<4>();
+        kani::cover!(w4 == Some(3660), "1h1m / 61m ...");
+        kani::cover!(w4 == Some(3 * 604800 + 2), "3w 2 / 3w2s");
+        kani::cover!(w2.is_none(), "refused");
+    }
+
+    /// VERIF: {"p":"C19","tier":"thorough","fns":["config::str_duration"],"bounds":"every ASCII string of length 5 and 6 in which each unit letter that precedes the first foreign character has a digit between it and the previous unit letter","oracle":"as c19_str_duration_value_wellformed_short","stubs":["alloc::fmt::format -> empty string (message text only)"],"covers":2,"unwind":9}
     #[kani::proof]
     #[kani::unwind(9)]
     #[kani::stub(alloc::fmt::format, empty_format)]
-    fn c19_str_duration_value_wellformed() {
-        let n: u8 = kani::any();
-        let want = match n {
-            0 => duration_value::<0>(),
-            1 => duration_value::<1>(),
-            2 => duration_value::<2>(),
-            3 => duration_value::<3>(),
-            4 => duration_value::<4>(),
-            5 => duration_value::<5>(),
-            _ => duration_value::<6>(),
-        };
-        kani::cover!(n == 5 && want == Some(5400), "1h30m / 1h 30m / 90m_ ...");
-        kani::cover!(n == 6 && want == Some(3 * 604800 + 2), "several terms incl. weeks and a bare number");
-        kani::cover!(n == 2 && want.is_none(), "refused");
+    fn c19_str_duration_value_wellformed_len5_6() {
+        let w5 = duration_value::<5>();
+        let w6 = duration_value::<6>();
+        kani::cover!(w5 == Some(5400), "1h30m / 1h 30 ...");
+        kani::cover!(w6 == Some(86400 + 7200 + 3), "1d2h3s / 1d2h 3");
     }
 
-    // D symbolic decimal digits, the first one at most `first_max`
-    fn digits<const D: usize>(out: &mut Vec<u8>, first_max: u8) {
+    // text -> Vec, then D symbolic decimal digits, the first one at most `first_max`
+    fn push_text(out: &mut Vec<u8>, t: &str) {
+        out.extend_from_slice(t.as_bytes());
+    }
+    fn push_digits<const D: usize>(out: &mut Vec<u8>, first_max: u8) {
         let d: [u8; D] = kani::any();
         let mut i = 0;
         while i < D {
@@ -585,53 +591,50 @@ mod k {
         u
     }
     fn run_duration(v: Vec<u8>) {
-        // SAFETY: decimal digits and the letters s m h d w only, i.e. ASCII (checked right here)
-        let mut i = 0;
-        while i < v.len() {
-            assert!(v[i] < 128, "harness sanity: ASCII");
-            i += 1;
-        }
+        // decimal digits and the letters s m h d w only (ASCII): the validating constructor is skipped
         let s = unsafe { String::from_utf8_unchecked(v) };
         let r = str_duration(Some(s));
         assert!(matches!(r, Ok(Some(_)) | Err(Error::InvalidConfig(_))), "str_duration: a duration or InvalidConfig");
         std::mem::forget(r);
     }
 
-    /// VERIF: {"p":"C19","tier":"quick","fns":["config::str_duration"],"bounds":"strings of exactly 20 symbolic decimal digits followed by one symbolic unit letter (s m h d w), e.g. `lifetime: 99999999999999999999s`","oracle":"Ok or Err(InvalidConfig): a number that does not fit is refused, not a panic / silent wrap-around","stubs":["alloc::fmt::format -> empty string (message text only)"],"covers":1,"unwind":24}
+    /// VERIF: {"p":"C19","tier":"quick","fns":["config::str_duration"],"bounds":"20-digit numbers around 2^64: the concrete digits 1844674407370955 + 4 symbolic digits (18446744073709550000..=18446744073709559999; 2^64-1 = ...1615 lies inside) + one symbolic unit letter, e.g. `lifetime: 18446744073709551615s`","oracle":"Ok or Err(InvalidConfig): a number that does not fit is refused, not a panic / silent wrap-around","stubs":["alloc::fmt::format -> empty string (message text only)"],"covers":1,"unwind":24}
     #[kani::proof]
     #[kani::unwind(24)]
     #[kani::stub(alloc::fmt::format, empty_format)]
     fn c19_str_duration_20_digits() {
         let mut v = Vec::with_capacity(21);
-        digits::<20>(&mut v, 9);
+        push_text(&mut v, "1844674407370955");
+        push_digits::<4>(&mut v, 9);
         v.push(any_unit());
-        kani::cover!(v[0] == b'0' && v[1] == b'7' && v[20] == b's', "fits: leading zero");
+        kani::cover!(v[16] == b'0' && v[17] == b'7' && v[20] == b's', "18446744073709550700s fits");
         run_duration(v);
     }
 
-    /// VERIF: {"p":"C19","tier":"quick","fns":["config::str_duration"],"bounds":"strings of exactly 15 symbolic decimal digits (the number itself always fits a u64) followed by one symbolic unit letter, e.g. `valid: 999999999999999w`","oracle":"Ok or Err(InvalidConfig): never a panic / silent wrap-around in number x unit","stubs":["alloc::fmt::format -> empty string (message text only)"],"covers":1,"unwind":19}
+    /// VERIF: {"p":"C19","tier":"quick","fns":["config::str_duration"],"bounds":"15-digit numbers (always below 2^64): 3 symbolic digits + the 12 concrete digits 000000000000 + one symbolic unit letter, e.g. `valid: 999000000000000w`","oracle":"Ok or Err(InvalidConfig): never a panic / silent wrap-around in number x unit","stubs":["alloc::fmt::format -> empty string (message text only)"],"covers":1,"unwind":19}
     #[kani::proof]
     #[kani::unwind(19)]
     #[kani::stub(alloc::fmt::format, empty_format)]
     fn c19_str_duration_unit_scaling() {
         let mut v = Vec::with_capacity(16);
-        digits::<15>(&mut v, 9);
+        push_digits::<3>(&mut v, 9);
+        push_text(&mut v, "000000000000");
         v.push(any_unit());
-        kani::cover!(v[15] == b'h' && v[3] == b'7', "hours never overflow with 15 digits");
+        kani::cover!(v[15] == b'h' && v[1] == b'7', "hours never overflow with 15 digits");
         run_duration(v);
     }
 
-    /// VERIF: {"p":"C19","tier":"quick","fns":["config::str_duration"],"bounds":"two terms `<14 digits>w<14 digits>w`, first digit of each number 0..=2 (so each term alone is below 2^64 seconds: 29999999999999 weeks = 1.81e19 s), other digits symbolic","oracle":"Ok or Err(InvalidConfig): a sum that does not fit is refused, not a panic (Duration += panics with 'overflow when adding durations' in every build profile)","stubs":["alloc::fmt::format -> empty string (message text only)"],"covers":1,"unwind":33}
+    /// VERIF: {"p":"C19","tier":"quick","fns":["config::str_duration"],"bounds":"two terms `AB000000000000wCD000000000000w` with symbolic digits A,C in 0..=2 and B,D in 0..=9 (each term alone is below 2^64 seconds: 29e12 weeks = 1.75e19 s)","oracle":"Ok or Err(InvalidConfig): a sum that does not fit is refused, not a panic (Duration += panics with 'overflow when adding durations' in every build profile)","stubs":["alloc::fmt::format -> empty string (message text only)"],"covers":1,"unwind":33}
     #[kani::proof]
     #[kani::unwind(33)]
     #[kani::stub(alloc::fmt::format, empty_format)]
     fn c19_str_duration_sum_of_terms() {
         let mut v = Vec::with_capacity(30);
-        digits::<14>(&mut v, 2);
-        v.push(b'w');
-        digits::<14>(&mut v, 2);
-        v.push(b'w');
-        kani::cover!(v[0] == b'0' && v[15] == b'0' && v[5] == b'7', "sum fits");
+        push_digits::<2>(&mut v, 2);
+        push_text(&mut v, "000000000000w");
+        push_digits::<2>(&mut v, 2);
+        push_text(&mut v, "000000000000w");
+        kani::cover!(v[0] == b'0' && v[15] == b'0' && v[1] == b'7', "sum fits");
         run_duration(v);
     }
 
